@@ -3,13 +3,14 @@
 TEXTUAL = ('ST', 'FT', 'TX', 'ID', 'IS', 'GTS', 'SNM', 'WD', 'CM', 'TN')
 
 # valid for STRICT construction through datatype_factory, canonical (re-encode verbatim)
+_TXT = ['X1', 'yz', 'Q3', 'w9', 'K5']
 VALID = {
-    'ST': ['X1', 'yz'], 'FT': ['X1', 'yz'], 'TX': ['X1', 'yz'], 'ID': ['X1', 'yz'], 'IS': ['X1', 'yz'],
-    'GTS': ['X1', 'yz'], 'SNM': ['X1', 'yz'], 'WD': ['X1', 'yz'], 'CM': ['X1', 'yz'],
-    'TN': ['555-1234', '(12)345-6789'],
-    'NM': ['7', '12.5'], 'SI': ['3', '12'],
-    'DT': ['20200229', '1999'], 'TM': ['1230', '235959'], 'DTM': ['202002291230', '19991231'],
-    'varies': ['X1', 'yz'], None: ['X1', 'yz'],
+    'ST': _TXT, 'FT': _TXT, 'TX': _TXT, 'ID': _TXT, 'IS': _TXT, 'GTS': _TXT, 'SNM': _TXT, 'WD': _TXT, 'CM': _TXT,
+    'TN': ['555-1234', '(12)345-6789', '555-0001', '555-0002', '555-0003'],
+    'NM': ['7', '12.5', '3', '44', '0.5'], 'SI': ['3', '12', '7', '41', '5'],
+    'DT': ['20200229', '1999', '202011', '20010203', '1987'], 'TM': ['1230', '235959', '08', '0915', '101112'],
+    'DTM': ['202002291230', '19991231', '2001', '200102030405', '20211010'],
+    'varies': _TXT, None: _TXT,
 }
 
 
